@@ -451,7 +451,8 @@ func init() {
 			if spec.Deadline {
 				ck += "(deadline)"
 			}
-			if spec.Cancel.Kind == "after-release" && !(exhaustiveOrders && n <= 3) && idx%1500 == 1245%1500 {
+			holdCase := spec.Cancel.Kind == "after-release" && !(exhaustiveOrders && n <= 3) && (idx/120)%8 == 3
+			if holdCase {
 				spec.HoldAfterCancelMS = 2500 // in-flight tasks that outlive the cancellation by seconds (a handful of cases)
 			}
 			res := newRes(map[string]interface{}{"spec": spec})
@@ -467,7 +468,11 @@ func init() {
 						return v
 					}
 					spec.PSeed++
+					spec.HoldAfterCancelMS = 0 // the long hold once per case
 				}
+			}
+			if holdCase {
+				res.Cells = append(res.Cells, "hold-after-cancel")
 			}
 			nontrivial := spec.Cancel.Kind != ""
 			for _, p := range plan {
